@@ -1720,6 +1720,9 @@ class Scheduler:
             if job.recording_provenance():
                 self.backend.record_job_start(job)
 
+            # If this job was nominated because resources became available, it will not use
+            # them after all, so give the other jobs waiting on limits a chance to run.
+            self._check_jobs_pending_limits()
             return
 
         # Check cache for job.
@@ -1741,6 +1744,10 @@ class Scheduler:
 
             # Record the call hash, if we recovered one.
             job.call_hash = call_hash
+
+            # A cached job uses no resources. If it was nominated because resources became
+            # available, give the other jobs waiting on limits a chance to run.
+            self._check_jobs_pending_limits()
 
             # There's no work to do, but be sure we consider it started.
             if job.recording_provenance():
